@@ -262,9 +262,14 @@ def rtdcCopy (env : Env) (o : Opts) (src : File) : File :=
     tables := if o.includeTables then src.tables.map (List.map (tableCopy o)) else none
     basins := if o.includeBasins then src.basins.map (basinDefCopy env it) else none }
 
-/-- is the `events` group created at all (`if feature_iter:`) -/
+/-- before F33: the `events` group was created only `if feature_iter:` -/
 def eventsGroupCreated (env : Env) (o : Opts) (src : File) : Bool :=
   !(featureIter env o src).isEmpty
+
+/-- since F33 (source has an `events` group): also for an empty feature list, unless
+    `features="none"` was requested — dclab cannot open a file without the group -/
+def eventsGroupCreatedFixed (env : Env) (o : Opts) (src : File) : Bool :=
+  !(featureIter env o src).isEmpty || (match o.features with | .none => false | _ => true)
 
 /-! ## what dclab shows of a file -/
 
@@ -414,5 +419,64 @@ def sel : List Bool → List α → List α
 /-- exported rows of one feature (`export.hdf5(filtered=True)`, C02) -/
 def tdms2rtdcRows (firstEmpty lastEmpty : Bool) (rows : List α) : List α :=
   sel (skipMask rows.length firstEmpty lastEmpty) rows
+
+/-- bulk conversion of a directory: the feature list is determined per measurement
+    (`ds.features_innate` of that measurement) -/
+def bulkFeatures (measurements : List (List String)) : List (List String) := measurements
+
+/-- the tempting "speed-up": candidates determined once for the first measurement -/
+def bulkFeaturesShared : List (List String) → List (List String)
+  | [] => []
+  | first :: rest => first :: rest.map fun m => first.filter fun f => m.contains f
+
+/-! ### task paths (`cli/common.py:setup_task_paths`) -/
+
+/-- a resolved path: directory and the file name split at its dots
+    (`x.compressed` = `["x", "compressed"]`) -/
+structure Path where
+  dir : List String
+  parts : List String
+  deriving DecidableEq, Repr
+
+/-- `pathlib.PurePath.suffix` (without the dot): the last dotted part, unless the last dot is
+    the first or the last character of the name -/
+def Path.suffix (p : Path) : Option String :=
+  match p.parts.reverse with
+  | [] => none
+  | last :: restRev => if last = "" ∨ restRev = [] ∨ restRev = [""] then none else some last
+
+/-- "make sure the output has the suffix": `po.with_name(po.name + ".rtdc")` -/
+def correctedOut (o : Path) : Path :=
+  if o.suffix = some "rtdc" then o else { o with parts := o.parts ++ ["rtdc"] }
+
+/-- `po.with_suffix(".rtdc~")` for a path that ends in `.rtdc` -/
+def tempOf (o : Path) : Path := { o with parts := o.parts.dropLast ++ ["rtdc~"] }
+
+structure TaskPaths where
+  out : Path
+  temp : Path
+  unlinked : List Path        -- files removed before the task starts
+  deriving DecidableEq, Repr
+
+/-- `setup_task_paths` for one output (after the repair of F29: an output that resolves to an
+    input is refused before anything is unlinked); `ex` = which paths exist -/
+def setupPaths (ins : List Path) (out : Path) (ex : Path → Bool) : Option TaskPaths :=
+  let o := correctedOut out
+  if ins.contains o then none                                  -- `ValueError`
+  else some { out := o, temp := tempOf o,
+              unlinked := (if ex o then [o] else []) ++ (if ex (tempOf o) then [tempOf o] else []) }
+
+/-- before F29: no comparison with the inputs -/
+def setupPathsOld (out : Path) (ex : Path → Bool) : TaskPaths :=
+  let o := correctedOut out
+  { out := o, temp := tempOf o,
+    unlinked := (if ex o then [o] else []) ++ (if ex (tempOf o) then [tempOf o] else []) }
+
+/-- the variant that *replaces* the last dotted part (`po.with_suffix(".rtdc")`) -/
+def correctedOutReplacing (o : Path) : Path :=
+  if o.suffix = some "rtdc" then o
+  else match o.suffix with
+    | some _ => { o with parts := o.parts.dropLast ++ ["rtdc"] }
+    | none => { o with parts := o.parts ++ ["rtdc"] }
 
 end DclabModel.Copy
